@@ -118,6 +118,16 @@ def build(rnd, tier, flags):
             body = r.pick(bodies)
             i = r.n(0, len(body) - 1)
             j = r.n(i, min(len(body) - 1, i + 2))
+            if r.chance(50):
+                # prefer a run that ends directly in front of a nested construct (the places where a rule that has to
+                # look ahead pushes lines back)
+                cand = [(bd, q) for bd in bodies for q in range(len(bd) - 1)
+                        if isinstance(bd[q + 1], gen.Block) and not isinstance(bd[q], gen.Block)]
+                if cand:
+                    body, j = r.pick(cand)
+                    i = r.n(max(0, j - 1), j)
+                    if any(isinstance(it, gen.Block) for it in body[i:j + 1]):
+                        i = j
             sub = gen.flatten(body[i:j + 1])
             a, bnd = idx[sub[0][0].uid], idx[sub[-1][0].uid] + 1
             if any(x in used for x in range(a, bnd)):
